@@ -70,6 +70,20 @@ def run(ctx):
         any(c.cfg.dominates(s_, p_) for s_ in c.calls('sf_seek') for p_ in pos)
     ctx.ob('TRUNCATE', 'order', oko, c.loc(tr[0]) if tr else c.loc(c.body), 'byte position %s' % ('taken after the frame seek and passed to psf_ftruncate' if oko else 'NOT taken after the seek / not the truncate argument'), None)
 
+    # psf_ftruncate itself: a length of 0 is valid (RAW file truncated to nothing); only negative lengths are refused
+    pf = [g for g in prog.lib_fns() if g.name == 'psf_ftruncate']
+    ctx.require(pf, 'psf_ftruncate not found')
+    from engine.bounds import Bounds
+    for g in pf:
+        sysc = [x for x in g.calls() if x.get('callee') in ('ftruncate', 'ftruncate64', '_chsize', '_chsize_s', 'SetEndOfFile')]
+        ctx.require(sysc, 'psf_ftruncate: no truncating system call found')
+        bd = Bounds(prog, g, eff)
+        ln = [n for n in g.walk() if n['k'] == 'DeclRefExpr' and n['n'] == 'len']
+        b = bd.ev_at(ln[0], g.cfg.point(sysc[0]))
+        okz = b.lo is not None and b.lo == 0
+        ctx.ob('TRUNCATE', 'psf_ftruncate:zero-allowed', okz, g.loc(sysc[0]), 'the system call is reached for every len >= 0 (lower bound of len there: %s)%s' % (b.lo, '' if okz else
+               ': a valid length is refused — SFC_FILE_TRUNCATE to that length reports success to the position bookkeeping but leaves the file as it was'), repr(b))
+
     ctx.rule('RDWR-CLOSE', 'wav_close in RDWR mode: psf_ftruncate (psf, current) only under current < psf->filelength, and the header rewrite follows it', floor=1)
     w = prog.fn('wav_close', 'wav.c')
     tr = list(w.calls('psf_ftruncate'))
